@@ -558,3 +558,198 @@ Proof.
     - rewrite E5. exact I. }
   intros rej2 t5 _. apply ok_bind; [destruct (rej1 ++ rej2); exact I|intros; exact I].
 Qed.
+
+(* ------------------------------------------------------------------------------------------ *)
+(* 4. balances never grow while a block is connected (so SlotInv survives every phase) *)
+
+Lemma ssum_split_mem v (C : list (N * N)) l :
+  ssum (filter (ofu v) l) =
+  ssum (filter (fun a => ofu v a && mem_uuid (app_uuid a) C) l) + ssum (filter (ofu v) (TowerLedger.del C l)).
+Proof.
+  unfold TowerLedger.del. induction l as [|a l IH]; cbn [filter]; [reflexivity|].
+  destruct (ofu v a) eqn:Eo, (mem_uuid (app_uuid a) C); cbn [andb negb filter]; rewrite ?Eo, ?TowerLedger.ssum_cons; lia.
+Qed.
+
+Lemma gk_phase_bal t0 h t1 : gk_block_connected t0 h = Ok tt t1 -> forall v, bal t1 v <= bal t0 v.
+Proof.
+  intros E v. destruct (TowerLedger.gk_block_spec t0 h t1 E) as [outd [Hu [Ha _]]].
+  unfold TowerLedger.bal, TowerLedger.avail, TowerLedger.held_t. rewrite Hu, Ha.
+  rewrite (aget_filter_key (fun k => negb (memN k outd))).
+  pose proof (ssum_filter_filter_le (ofu v) (fun a => negb (memN (a_user a) outd)) (db_apps t0)).
+  destruct (negb (memN v outd)); [lia|]. destruct (aget (db_users t0) v); lia.
+Qed.
+
+Lemma w_phase_bal sc t1 hash txs h t2 :
+  w_block_connected sc t1 (cache_block hash txs) h = Ok tt t2 -> forall v, bal t2 v <= bal t1 v.
+Proof.
+  intros E v. destruct (TowerLedger.w_block_spec sc t1 hash txs h t2 E) as [tb [invalid [HB [_ [Ha [_ [Hu _]]]]]]].
+  destruct (TowerLedger.ua_fields _ _ (TowerLedger.bl_ua _ _ _ HB)) as [_ [Hub Hab]].
+  unfold TowerLedger.bal, TowerLedger.avail, TowerLedger.held_t. rewrite Hu, Ha, Hub, Hab. unfold TowerLedger.del.
+  pose proof (ssum_filter_filter_le (ofu v) (fun a => negb (mem_uuid (app_uuid a) invalid)) (db_apps t1)). lia.
+Qed.
+
+Lemma r_phase_bal le sc t2 hash txs h t3 :
+  Inv t2 -> r_block_connected le sc t2 (index_block hash txs) h = Ok tt t3 -> forall v, bal t3 v <= bal t2 v.
+Proof.
+  intros HI E v. destruct (TowerLedger.r_block_spec le sc t2 hash txs h t3 HI E) as [completed [rej [_ [_ [_ [Ha Hv]]]]]].
+  destruct (Hv v) as [_ Hav]. unfold TowerLedger.bal, TowerLedger.held_t. rewrite Hav, Ha.
+  rewrite (ssum_split_mem v completed (db_apps t2)). unfold TowerLedger.del at 1.
+  pose proof (ssum_filter_filter_le (ofu v) (fun a => negb (mem_uuid (app_uuid a) rej)) (TowerLedger.del completed (db_apps t2))). lia.
+Qed.
+
+Lemma gk_block_connected_wcache t h tg : gk_block_connected t h = Ok tt tg -> w_cache tg = w_cache t /\ cfg tg = cfg t.
+Proof.
+  unfold gk_block_connected. destruct (outdated_users (c_delta (cfg t)) h (gk_users t)) as [out|]; [|discriminate].
+  destruct out; intros E; inversion E; split; reflexivity.
+Qed.
+
+(* ------------------------------------------------------------------------------------------ *)
+(* 5. the big invariant and the envelope *)
+
+Record IdxInv (t : tower) : Prop := {
+  ii_wwf : idx_wf (w_cache t);
+  ii_val : idx_val (r_index t);
+  ii_len : len_ok (r_index t);
+  ii_suffix : is_suffix (ti_blocks (w_cache t)) (ti_blocks (r_index t));
+  ii_sizes : (ti_size (w_cache t) <= ti_size (r_index t))%nat
+}.
+
+Record BigInv (t : tower) : Prop := {
+  bi_inv : Inv t;
+  bi_chain : chain_inv t;
+  bi_idx : IdxInv t;
+  bi_exp : ExpInv t;
+  bi_slot : SlotInv t
+}.
+
+(* THE ENVELOPE, one operation in one state (computable).  It excludes exactly the u32 overflow sites:
+   - a first registration needs height + duration + grace <= 2^32-1 (S_gk_new_user_expiry_overflow now,
+     S_gk_outdated_overflow at the next block) and the configured slots to be a u32;
+   - a renewal that is granted needs the (saturated) new expiry + grace <= 2^32-1 (S_gk_outdated_overflow
+     at the next block: F12) and the user's balance available + held + granted <= 2^32-1
+     (S_gk_refund_overflow when a tracker of that user completes);
+   - a block is connected at a height >= CONFIRMATIONS_BEFORE_RETRY (S_r_stale_underflow).
+   API requests other than register, and disconnections, are unconstrained. *)
+Definition envb (t : tower) (o : op) : bool :=
+  match o with
+  | ORegister u =>
+      match gk_get t u with
+      | None => N.leb (gk_height t + c_duration (cfg t) + c_delta (cfg t)) U32MAX && N.leb (c_slots (cfg t)) U32MAX
+      | Some ui =>
+          negb (N.leb (u_slots ui + c_slots (cfg t)) U32MAX) ||
+          (N.leb (N.min U32MAX (u_expiry ui + c_duration (cfg t)) + c_delta (cfg t)) U32MAX &&
+           N.leb (bal t u + c_slots (cfg t)) U32MAX)
+      end
+  | OConnect _ _ => N.leb RETRY (gk_height t + 1)
+  | _ => true
+  end.
+
+(* CHAIN DISCIPLINE, one operation: a connected block carries a hash the responder's index does not hold
+   (what TowerReorg.fresh_hashes asks; ODisconnect always removes the current tip by construction of `step`) *)
+Definition chainb (t : tower) (o : op) : bool :=
+  match o with OConnect hash _ => negb (memN hash (ti_blocks (r_index t))) | _ => true end.
+
+Fixpoint in_envelope (le : bool) (t : tower) (h : list (op * script)) : bool :=
+  match h with
+  | [] => true
+  | (o, sc) :: r => envb t o && in_envelope le (fst (step le t o sc)) r
+  end.
+
+Fixpoint chain_disciplined (le : bool) (t : tower) (h : list (op * script)) : bool :=
+  match h with
+  | [] => true
+  | (o, sc) :: r => chainb t o && chain_disciplined le (fst (step le t o sc)) r
+  end.
+
+Lemma big_fresh t : BigInv t -> BigInv (fresh t).
+Proof.
+  intros [HI HC HX HE HS]. constructor.
+  - eapply inv_frame; [|exact HI]. repeat split.
+  - eapply chain_inv_core; [|exact HC]. repeat split.
+  - destruct HX as [X1 X2 X3 X4 X5]. constructor; assumption.
+  - exact HE.
+  - exact HS.
+Qed.
+
+Lemma disconnect_height_pos t hash : chain_inv t -> len_ok (r_index t) -> last_hash t = Some hash -> 1 <= gk_height t.
+Proof.
+  intros HC Hl El. unfold last_hash in El. destruct (last_map_some _ _ El) as [bs Eb].
+  unfold len_ok in Hl. rewrite Eb, app_length in Hl. cbn [length] in Hl. pose proof (ci_tip _ HC). lia.
+Qed.
+
+(* the three listeners of a connected block all return *)
+Lemma connect_phases_ok le t hash txs sc :
+  BigInv t -> RETRY <= gk_height t + 1 ->
+  exists tg tw t',
+    gk_block_connected (fresh t) (gk_height t + 1) = Ok tt tg /\
+    w_block_connected sc tg (cache_block hash txs) (gk_height t + 1) = Ok tt tw /\
+    r_block_connected le sc tw (index_block hash txs) (gk_height t + 1) = Ok tt t' /\
+    step le t (OConnect hash txs) sc = (t', OBlockRes) /\
+    Inv tg /\ Inv tw /\ (forall v, bal tw v <= bal t v).
+Proof.
+  intros HB Hr. apply big_fresh in HB. destruct HB as [HI HC HX HE HS]. set (h := gk_height t + 1).
+  (* gatekeeper *)
+  pose proof (gk_block_connected_ok (fresh t) h HI HE) as Hok. apply ok_ex in Hok. destruct Hok as [[] [tg Eg]].
+  pose proof (gk_block_connected_pres Inv (sa_block _ inv_stable) _ h HI) as HIg. rewrite Eg in HIg. cbn [pres] in HIg.
+  destruct (gk_block_connected_chain _ h tg HC) as [HCg [Hig Hhg]]; [cbn [gk_height fresh set_rpc_log]; unfold h; lia|exact Eg|].
+  destruct (gk_block_connected_wcache _ _ _ Eg) as [Hwg _].
+  (* watcher *)
+  pose proof (w_block_connected_ok sc tg (cache_block hash txs) h) as Hok.
+  rewrite Hwg, Hig in Hok. specialize (Hok (ii_wwf _ HX) (ii_val _ HX)). apply ok_ex in Hok. destruct Hok as [[] [tw Ew]].
+  pose proof (w_block_connected_pres Inv (sb_wr _ (sa_block _ inv_stable)) sc tg (cache_block hash txs) h HIg) as HIw.
+  rewrite Ew in HIw. cbn [pres] in HIw.
+  pose proof (w_block_connected_presW _ chain_inv_stableW (fun _ => True) (fun _ => I) sc tg (cache_block hash txs) h HCg) as HCw.
+  rewrite Ew in HCw. cbn [pres2] in HCw.
+  destruct (w_block_connected_indexes _ _ _ _ _ Ew) as [_ [Hiw _]].
+  assert (Hbal : forall v, bal tw v <= bal t v).
+  { intros v. pose proof (w_phase_bal _ _ _ _ _ _ Ew v). pose proof (gk_phase_bal _ _ _ Eg v).
+    change (bal (fresh t) v) with (bal t v) in *. lia. }
+  (* responder *)
+  pose proof (r_block_connected_ok le sc tw (index_block hash txs) h HIw) as Hok.
+  rewrite Hiw, Hig in Hok. specialize (Hok (ci_idx _ HC) (ci_memo _ HCw)).
+  assert (HSw : SlotInv tw) by (intros v; specialize (Hbal v); specialize (HS v); change (bal (fresh t) v) with (bal t v) in HS; lia).
+  specialize (Hok HSw Hr). apply ok_ex in Hok. destruct Hok as [[] [t' Er]].
+  exists tg, tw, t'. split; [exact Eg|]. split; [exact Ew|]. split; [exact Er|].
+  split; [|split; [exact HIg|split; [exact HIw|exact Hbal]]].
+  cbn [step]. change (set_rpc_log t []) with (fresh t). change (gk_height (fresh t)) with (gk_height t).
+  change Consts.LISTENER_ORDER with [0%Z; 1%Z; 2%Z]. cbn [run_listeners]. unfold listener_connected. cbn [Z.eqb Pos.eqb].
+  fold h. rewrite Eg. cbn [bind]. rewrite Ew. cbn [bind]. rewrite Er. reflexivity.
+Qed.
+
+Lemma disconnect_shape le t sc hash :
+  last_hash t = Some hash -> 1 <= gk_height t ->
+  exists t', step le t ODisconnect sc = (t', OBlockRes) /\
+             r_index t' = ti_disconnect (r_index t) hash /\ w_cache t' = ti_disconnect (w_cache t) hash.
+Proof.
+  intros El Hh. cbn [step]. change (last_hash (set_rpc_log t [])) with (last_hash t). rewrite El.
+  change Consts.LISTENER_ORDER with [0%Z; 1%Z; 2%Z]. cbn [run_listeners]. unfold listener_disconnected. cbn [Z.eqb Pos.eqb].
+  unfold gk_block_disconnected, w_block_disconnected, r_block_disconnected, u32_sub.
+  change (gk_height (set_rpc_log t [])) with (gk_height t). apply N.leb_le in Hh. rewrite !Hh. cbn [bind wrap].
+  eexists. split; [reflexivity|]. split; reflexivity.
+Qed.
+
+(* ONE STEP NEVER ABORTS: from a state satisfying the big invariant, inside the envelope, whatever the
+   operation, the node's answers and the logging flag *)
+Theorem step_never_aborts le t o sc : BigInv t -> envb t o = true -> not_abort (snd (step le t o sc)).
+Proof.
+  intros HB Henv. pose proof HB as [HI HC HX HE HS].
+  destruct o as [u|signer loc b delay sig|signer loc|signer|hash txs|].
+  - cbn [envb] in Henv. destruct (gk_get t u) as [ui|] eqn:Eg.
+    + destruct (N.leb_spec (u_slots ui + c_slots (cfg t)) U32MAX) as [Hs|Hs].
+      * rewrite (register_renew le t sc u ui Eg Hs). exact I.
+      * rewrite (register_max_slots le t sc u ui Eg Hs). exact I.
+    + apply andb_true_iff in Henv. destruct Henv as [He _]. apply N.leb_le in He.
+      assert (Hm : amem (db_users t) u = false).
+      { unfold amem. rewrite <- (inv_sync t HI). unfold gk_get in Eg. rewrite Eg. reflexivity. }
+      rewrite (register_new le t sc u Eg Hm); [exact I|lia].
+  - cbn [step]. apply ok_wrap; [intros; exact I|]. apply big_fresh in HB.
+    apply add_appointment_ok; [exact (bi_inv _ HB)|exact (ii_val _ (bi_idx _ HB))].
+  - apply reads_never_abort.
+  - apply reads_never_abort.
+  - cbn [envb] in Henv. apply N.leb_le in Henv.
+    destruct (connect_phases_ok le t hash txs sc HB Henv) as [tg [tw [t' [_ [_ [_ [Es _]]]]]]]. rewrite Es. exact I.
+  - destruct (last_hash t) as [hash|] eqn:El.
+    + destruct (disconnect_shape le t sc hash El (disconnect_height_pos t hash HC (ii_len _ HX) El)) as [t' [Es _]].
+      rewrite Es. exact I.
+    + cbn [step]. change (last_hash (set_rpc_log t [])) with (last_hash t). rewrite El. exact I.
+Qed.
